@@ -20,6 +20,7 @@ from cpp2coq import Unsupported, show
 cpp2coq.SCHEMA["utlru_cache"] = dict(
     module="GenUtlru", requires=["Capp.Base", "Capp.Rr", "Capp.TtlLru", "Capp.RrLit", "Capp.LruLit", "Capp.TtlLit"],
     state="ttll", state_args="K V", elem="telem", elem_args="K V", cap="tt_cap", clock=True,
+    ctor=True, elem_default="{| te_expire := 0%Z; te_keyed := None; te_lru := None; te_ttl := None; te_val := None |}",
     fields=[("tt_cap", None, "cap"), ("tt_ttl", "m_ttl", "durms"), ("tt_elems", "m_elements", "vec"),
             ("tt_index", "m_keyed_elements", "umap"), ("tt_list", "m_lru_list", "list"), ("tt_end", "m_lru_end", "liter"),
             ("tt_ord", "m_ttl_list", "tlist"), ("tt_used", "m_used_size", "nat")],
@@ -41,6 +42,8 @@ ZCMP = {"operator>=": "(%(b)s <=? %(a)s)%%Z", "operator>": "(%(b)s <? %(a)s)%%Z"
 
 
 class Ext(cpp2coq.Tr):
+    EMPTY_KINDS = cpp2coq.Tr.EMPTY_KINDS + ("tlist",)       # std::list<size_t> m_ttl_list, default constructed: empty
+
     COQTY = dict(cpp2coq.Tr.COQTY, titer="iter", durms="Z", tnode="nat")
 
     # ---- types
